@@ -166,3 +166,20 @@ Print Assumptions C08_cookie_semantics.
 Theorem C08_nonce_vocabulary : forall n c, n < 2000 -> c <= 6 -> parse_nonce (nonce_str n c) = (n, c).
 Proof. exact AbsGlueProofs.nonce_roundtrip. Qed.
 Print Assumptions C08_nonce_vocabulary.
+
+(* ---- the long-term monitor (RFC 8489 9.2.4 server, delivery soundness, indications refused) on the MODEL: on every
+   well-formed history it reports nothing but the two listed known findings (class 1 = D6: the retry after a 401 carries no
+   integrity; class 2 = D7: the retry after a 438 omits the algorithm attributes), whatever the peer sends; and both ARE
+   reported on a concrete history — they are defects of the implementation which the faithful model reproduces *)
+From Rustun Require Import Proofs.AgentMeets Proofs.AgentMeets2.
+Theorem C08_model_meets_monitor_known_only : forall (cf:config) (m:mech) (mc:mcfg) (cc:ccfg) (ops:list op),
+  consistent mc cf -> consistent_cc cc cf m -> well_formed_history ops -> wf_apps ops ->
+  forall vs b cl, In vs (run_mon mc cc (init cf m) (mall0 cc) ops) -> In (8, b, cl) vs -> b = true \/ cl = 1 \/ cl = 2.
+Proof. exact AgentMeets2.model_meets_C08_known_only. Qed.
+Print Assumptions C08_model_meets_monitor_known_only.
+Theorem C08_known_finding_D6_on_model : exists cf m mc cc ops vs, consistent mc cf /\ consistent_cc cc cf m /\ well_formed_history ops /\ wf_apps ops
+  /\ In vs (run_mon mc cc (init cf m) (mall0 cc) ops) /\ In (8, false, 1) vs.
+Proof. exact AgentMeets2.model_C08_d6_reachable. Qed.
+Theorem C08_known_finding_D7_on_model : exists cf m mc cc ops vs, consistent mc cf /\ consistent_cc cc cf m /\ well_formed_history ops /\ wf_apps ops
+  /\ In vs (run_mon mc cc (init cf m) (mall0 cc) ops) /\ In (8, false, 2) vs.
+Proof. exact AgentMeets2.model_C08_d7_reachable. Qed.
